@@ -170,6 +170,10 @@ func VH_C09E() {
 	flags = LstdFlags &^ Lcaller
 	rec := &vRec{}
 	cb, sb := vChoose(6), vChoose(5)
+	hist := vChoose(3) // history on the probe's logger, on another logger, or on a child of the probe's logger
+	if hist == 2 {
+		flags |= LattrsR // children print their ancestors' attributes too
+	}
 	vC09EEmit(vC09ELogger("b", rec, cb), sb)
 	vAssert(len(rec.evs) == 1, "C09: the probe writes one record")
 	ref := rec.evs[0].P
@@ -178,8 +182,12 @@ func VH_C09E() {
 	poolPrintCtx.Put(newPrintCtx())
 	lgB := vC09ELogger("b", rec, cb)
 	lgA := lgB
-	if vBool() {
+	switch hist {
+	case 1:
 		lgA = vC09ELogger("a", rec, vChoose(6))
+	case 2:
+		// a child binding a key its parent binds too
+		lgA = lgB.New("kid").SetWriter(&recW{0, rec}).SetErrorWriter(&recW{0, rec}).SetAttrs(NewAttr("region", "kid"))
 	}
 	vC09EEmit(lgA, vChoose(5))
 	if vBool() {
